@@ -9,6 +9,9 @@ EXTENDS Integers, Sequences, FiniteSets, TLC, SequencesExt
 CONSTANTS Streams, W0, C0, MF0, DataSizes, PadSizes, Incs, InitWins, MaxFrames,
           MaxSend, MaxCtl, OutCap,
           Eager, MaxCtlQ,   \* Eager: writer delivers at once (no out interleaving); MaxCtlQ: ctl frames in flight
+          RstCodes,       \* RST_STREAM error codes the sender may use
+          Promised,       \* stream ids a PUSH_PROMISE may promise
+          Pings,          \* PING payload identities
           BugContES,      \* TRUE: model relay.go:584 (continuation always END_STREAM)
           BugPadCredit,   \* TRUE: model relay.go:496 (credit payload only)
           EncodeAtEnqueue \* TRUE: header blocks are HPACK-encoded when queued (as the code did), not when written
@@ -18,13 +21,15 @@ VARIABLES q, sw, bufs, cw, iw, mf, out, cont,      \* relay (flowMu-protected + 
           gS, gC, bad, badMF,                      \* B's credit ledger, as processed by the relay (ghost)
           aFC, aFCc, aCred, aCredC,                \* A's ledger (ghost)
           sentLog, dlvLog, nSend, nCtl,
-          hcount, encOrder, dlvOrder               \* ghost: header blocks in the order encoded / delivered
+          hcount, encOrder, dlvOrder,              \* ghost: header blocks in the order encoded / delivered
+          pings, goneAway                          \* connection-level frames: PINGs sent and not yet seen by B; GOAWAY sent / seen
 
 rel   == <<q, sw, bufs, cw, out>>
 ledg  == <<gS, gC, bad, badMF>>
 aled  == <<aFC, aFCc, aCred, aCredC>>
 hp    == <<hcount, encOrder, dlvOrder>>
-vars  == <<rel, iw, mf, cont, ctl, ledg, aled, sentLog, dlvLog, nSend, nCtl, hp>>
+conn  == <<pings, goneAway>>
+vars  == <<rel, iw, mf, cont, ctl, ledg, aled, sentLog, dlvLog, nSend, nCtl, hp, conn>>
 
 NoCont == [s |-> 0, es |-> FALSE]
 FC(f) == IF f.t = "D" THEN f.n ELSE 0
@@ -37,6 +42,7 @@ Init ==
   /\ sentLog = [s \in Streams |-> <<>>] /\ dlvLog = [s \in Streams |-> <<>>]
   /\ nSend = 0 /\ nCtl = 0
   /\ hcount = 0 /\ encOrder = <<>> /\ dlvOrder = <<>>
+  /\ pings = {} /\ goneAway = "no"
 
 \* relay.go:483 outputBuffer(): created on first use with the *current* initial window
 Buf(s) == IF s \in bufs THEN sw[s] ELSE iw
@@ -63,8 +69,9 @@ El(k, n) == [k |-> k, n |-> n]
 AddData(lg, n) == IF n = 0 THEN lg
                   ELSE IF lg # <<>> /\ lg[Len(lg)].k = "b" THEN [lg EXCEPT ![Len(lg)].n = @ + n]
                   ELSE Append(lg, El("b", n))
+\* [k |-> "r", n |-> error code], [k |-> "pp", n |-> promised stream id] (its header list counts as one "h" element)
 AddEl(lg, kind, n, es) ==
-  LET a == IF kind = "b" THEN AddData(lg, n) ELSE Append(lg, El(kind, 0))
+  LET a == IF kind = "b" THEN AddData(lg, n) ELSE Append(lg, El(kind, IF kind \in {"r", "pp"} THEN n ELSE 0))
   IN IF es THEN Append(a, El("ES", 0)) ELSE a
 \* d is a prefix of s (a DATA run may be partially delivered)
 LogPrefix(d, s) ==
@@ -80,10 +87,11 @@ Deliver(em, lg) ==
        Deliver(Tail(em), [lg EXCEPT ![f.s] =
              (CASE f.t = "D" -> AddEl(@, "b", f.n, f.es)
                 [] f.t = "H" -> AddEl(@, "h", 0, f.es)
-                [] f.t = "R" -> AddEl(@, "r", 0, FALSE))])
+                [] f.t = "R" -> AddEl(@, "r", f.n, FALSE)
+                [] f.t = "PP" -> AddEl(@, "pp", f.n, FALSE))])
 
-\* ids of the header blocks among emitted frames
-HIds(em) == LET hs == SelectSeq(em, LAMBDA f : f.t = "H") IN [i \in 1..Len(hs) |-> hs[i].h]
+\* ids of the header blocks among emitted frames (HEADERS and PUSH_PROMISE carry one each)
+HIds(em) == LET hs == SelectSeq(em, LAMBDA f : f.t \in {"H", "PP"}) IN [i \in 1..Len(hs) |-> hs[i].h]
 \* enq: ids of header blocks queued by this step (encoded now if EncodeAtEnqueue)
 CommitH(nq, nsw, nbufs, ncw, em, gS1, gC1, enq) ==
   LET d == Debit(em, gS1, gC1, bad, badMF)
@@ -118,32 +126,59 @@ ASendData(s, n, pad, es) ==
        /\ aCred' = [aCred EXCEPT ![s] = @ + cr] /\ aCredC' = aCredC + cr
   /\ sentLog' = [sentLog EXCEPT ![s] = AddEl(@, "b", n, es)]
   /\ EnqueueEmit(s, Split(s, n, es, mf))
-  /\ UNCHANGED <<iw, mf, cont, ctl, nCtl>>
+  /\ UNCHANGED <<iw, mf, cont, ctl, nCtl, conn>>
 
 ASendHeaders(s, es) ==                 \* HEADERS with END_HEADERS
   /\ nSend < MaxSend /\ cont.s = 0 /\ nSend' = nSend + 1
   /\ sentLog' = [sentLog EXCEPT ![s] = AddEl(@, "h", 0, es)]
   /\ EnqueueEmit(s, << [t |-> "H", s |-> s, n |-> 0, es |-> es, h |-> hcount + 1] >>)
-  /\ UNCHANGED <<iw, mf, cont, ctl, aled, nCtl>>
+  /\ UNCHANGED <<iw, mf, cont, ctl, aled, nCtl, conn>>
 
 ASendHeadersOpen(s, es) ==             \* HEADERS without END_HEADERS: relay.go:231-234
   /\ nSend < MaxSend /\ cont.s = 0 /\ nSend' = nSend + 1
   /\ cont' = [s |-> s, es |-> es]
   /\ sentLog' = [sentLog EXCEPT ![s] = AddEl(@, "h", 0, es)]
-  /\ UNCHANGED <<rel, iw, mf, ctl, ledg, aled, dlvLog, nCtl, hp>>
+  /\ UNCHANGED <<rel, iw, mf, ctl, ledg, aled, dlvLog, nCtl, hp, conn>>
 
 AContinuation ==                       \* CONTINUATION with END_HEADERS: relay.go:294-303, :584
   /\ cont.s # 0
   /\ LET es == IF BugContES THEN TRUE ELSE cont.es IN
        EnqueueEmit(cont.s, << [t |-> "H", s |-> cont.s, n |-> 0, es |-> es, h |-> hcount + 1] >>)
   /\ cont' = NoCont
-  /\ UNCHANGED <<iw, mf, ctl, aled, sentLog, nSend, nCtl>>
+  /\ UNCHANGED <<iw, mf, ctl, aled, sentLog, nSend, nCtl, conn>>
 
-ASendRst(s) ==
+ASendRst(s, code) ==                   \* relay.go:259: the error code travels with the frame
   /\ nSend < MaxSend /\ cont.s = 0 /\ nSend' = nSend + 1
-  /\ sentLog' = [sentLog EXCEPT ![s] = AddEl(@, "r", 0, FALSE)]
-  /\ EnqueueEmit(s, << [t |-> "R", s |-> s, n |-> 0, es |-> FALSE, h |-> 0] >>)
-  /\ UNCHANGED <<iw, mf, cont, ctl, aled, nCtl>>
+  /\ sentLog' = [sentLog EXCEPT ![s] = AddEl(@, "r", code, FALSE)]
+  /\ EnqueueEmit(s, << [t |-> "R", s |-> s, n |-> code, es |-> FALSE, h |-> 0] >>)
+  /\ UNCHANGED <<iw, mf, cont, ctl, aled, nCtl, conn>>
+
+\* PUSH_PROMISE on stream s promising stream p, with END_HEADERS (relay.go:271-282, :449): queued in s's FIFO like HEADERS
+ASendPush(s, p) ==
+  /\ nSend < MaxSend /\ cont.s = 0 /\ nSend' = nSend + 1
+  /\ sentLog' = [sentLog EXCEPT ![s] = AddEl(@, "pp", p, FALSE)]
+  /\ EnqueueEmit(s, << [t |-> "PP", s |-> s, n |-> p, es |-> FALSE, h |-> hcount + 1] >>)
+  /\ UNCHANGED <<iw, mf, cont, ctl, aled, nCtl, conn>>
+
+\* PRIORITY frames and the priority fields of HEADERS travel in stream order too (relay.go:243, :406-431) but carry
+\* nothing the statement constrains: they are part of the schedules - they change how header blocks are split
+\* (5 octets) - and leave this state alone
+ASendPrio(s) ==
+  /\ nSend < MaxSend /\ cont.s = 0 /\ nSend' = nSend + 1
+  /\ UNCHANGED <<rel, iw, mf, cont, ctl, ledg, aled, sentLog, dlvLog, nCtl, hp, conn>>
+
+\* connection-level frames are written to the receiver directly, outside the per-stream queues (relay.go:284-290)
+ASendPing(d) ==
+  /\ nSend < MaxSend /\ cont.s = 0 /\ nSend' = nSend + 1 /\ d \notin pings /\ goneAway = "no"
+  /\ pings' = pings \cup {d}
+  /\ UNCHANGED <<rel, iw, mf, cont, ctl, ledg, aled, sentLog, dlvLog, nCtl, hp, goneAway>>
+BRecvPing(d) == /\ d \in pings /\ pings' = pings \ {d}
+                /\ UNCHANGED <<rel, iw, mf, cont, ctl, ledg, aled, sentLog, dlvLog, nSend, nCtl, hp, goneAway>>
+ASendGoAway ==                       \* the sender's last frame
+  /\ cont.s = 0 /\ goneAway = "no" /\ goneAway' = "sent" /\ nSend' = MaxSend
+  /\ UNCHANGED <<rel, iw, mf, cont, ctl, ledg, aled, sentLog, dlvLog, nCtl, hp, pings>>
+BRecvGoAway == /\ goneAway = "sent" /\ goneAway' = "seen"
+               /\ UNCHANGED <<rel, iw, mf, cont, ctl, ledg, aled, sentLog, dlvLog, nSend, nCtl, hp, pings>>
 
 (* ---- writer goroutine: output channel -> B (relay.go:165-184) ---- *)
 WriterSend ==
@@ -153,16 +188,17 @@ WriterSend ==
        /\ dlvLog' = [dlvLog EXCEPT ![f.s] =
              (CASE f.t = "D" -> AddEl(@, "b", f.n, f.es)
                 [] f.t = "H" -> AddEl(@, "h", 0, f.es)
-                [] f.t = "R" -> AddEl(@, "r", 0, FALSE))]
-       /\ dlvOrder' = IF f.t = "H" THEN Append(dlvOrder, f.h) ELSE dlvOrder
-       /\ encOrder' = IF f.t = "H" /\ ~EncodeAtEnqueue THEN Append(encOrder, f.h) ELSE encOrder
-  /\ UNCHANGED <<q, sw, bufs, cw, iw, mf, cont, ctl, ledg, aled, sentLog, nSend, nCtl, hcount>>
+                [] f.t = "R" -> AddEl(@, "r", f.n, FALSE)
+                [] f.t = "PP" -> AddEl(@, "pp", f.n, FALSE))]
+       /\ dlvOrder' = IF f.t \in {"H", "PP"} THEN Append(dlvOrder, f.h) ELSE dlvOrder
+       /\ encOrder' = IF f.t \in {"H", "PP"} /\ ~EncodeAtEnqueue THEN Append(encOrder, f.h) ELSE encOrder
+  /\ UNCHANGED <<q, sw, bufs, cw, iw, mf, cont, ctl, ledg, aled, sentLog, nSend, nCtl, hcount, conn>>
 
 (* ---- receiver B issues control frames ---- *)
 BCtl(f) ==
   /\ nCtl < MaxCtl /\ nCtl' = nCtl + 1 /\ Len(ctl) < MaxCtlQ
   /\ ctl' = Append(ctl, f)
-  /\ UNCHANGED <<rel, iw, mf, cont, ledg, aled, sentLog, dlvLog, nSend, hp>>
+  /\ UNCHANGED <<rel, iw, mf, cont, ledg, aled, sentLog, dlvLog, nSend, hp, conn>>
 
 (* ---- relay applies B's control frames (peer reader thread, under flowMu) ---- *)
 \* relay.go:472 sendQueuedFramesUnderWindowSize ranges over a Go map: any order
@@ -199,20 +235,24 @@ ApplyCtl ==
           [] f.t = "SM" ->
                /\ mf' = f.v
                /\ UNCHANGED <<rel, iw, ledg, dlvLog, hp>>
-  /\ UNCHANGED <<cont, aled, sentLog, nSend, nCtl>>
+  /\ UNCHANGED <<cont, aled, sentLog, nSend, nCtl, conn>>
 
 Next ==
   \/ \E s \in Streams, n \in DataSizes, p \in PadSizes, es \in BOOLEAN : ASendData(s, n, p, es)
   \/ \E s \in Streams, es \in BOOLEAN : ASendHeaders(s, es) \/ ASendHeadersOpen(s, es)
   \/ AContinuation
-  \/ \E s \in Streams : ASendRst(s)
+  \/ \E s \in Streams, c \in RstCodes : ASendRst(s, c)
+  \/ \E s \in Streams, p \in Promised : ASendPush(s, p)
+  \/ \E s \in Streams : ASendPrio(s)
+  \/ \E d \in Pings : ASendPing(d) \/ BRecvPing(d)
+  \/ ASendGoAway \/ BRecvGoAway
   \/ WriterSend
   \/ \E s \in Streams \cup {0}, i \in Incs : BCtl([t |-> "WU", s |-> s, v |-> i])
   \/ \E v \in InitWins : BCtl([t |-> "SI", s |-> 0, v |-> v])
   \/ \E v \in MaxFrames : BCtl([t |-> "SM", s |-> 0, v |-> v])
   \/ ApplyCtl
 
-Spec == Init /\ [][Next]_vars /\ WF_vars(WriterSend) /\ WF_vars(ApplyCtl)
+Spec == Init /\ [][Next]_vars /\ WF_vars(WriterSend) /\ WF_vars(ApplyCtl) /\ WF_vars(BRecvGoAway) /\ \A d \in Pings : WF_vars(BRecvPing(d))
 
 (* ---------------- properties ---------------- *)
 WithinGrant      == ~bad                       \* C09: stream and connection credit respected
@@ -225,4 +265,5 @@ LedgerAgrees     == gC = cw /\ \A s \in bufs : gS[s] = sw[s]     \* relay window
 HpackInOrder     == \A i \in 1..Len(dlvOrder) : i <= Len(encOrder) /\ dlvOrder[i] = encOrder[i]
 PrefixFidelity   == \A s \in Streams : LogPrefix(dlvLog[s], sentLog[s])        \* C10
 AllDelivered     == <>[](\A s \in Streams : q[s] = <<>> => dlvLog[s] = sentLog[s]) \* C10 liveness
+ConnFramesRelayed == <>[](pings = {} /\ goneAway # "sent")                      \* C10: PING / GOAWAY reach the receiver
 ==============================================================================
